@@ -1130,10 +1130,17 @@ int main(int argc, char **argv)
     return 3;
   }
 #endif
+  static Watchdog *dog = nullptr;  // never destroyed: its thread is detached
+  if (mode == "race")
+    dog = new Watchdog(static_cast<int>(R.opt.param("watchdog_s", R.opt.thorough ? 180 : 60)));
   R.run_cases([&](uint64_t i) {
     uint64_t seed = R.case_seed(i);
     if (mode == "race")
+    {
+      dog->begin("callback-churn-vs-collect");
       race_case(seed);
+      dog->end();
+    }
 #if OPENTELEMETRY_ABI_VERSION_NO >= 2
     else if (mode == "gauge")
       gauge_case(seed);
